@@ -185,3 +185,39 @@ func VH_C18_layout() {
 	}
 	vAssert("C18.layout.reopen_names", len(vListDir(root+"/"+dirName)) == len(want))
 }
+
+// VH_C18_switch: LowercaseNames is a package-level switch a process may flip
+// between two handles (a migration tool reading one layout and writing the
+// other).  The directory name follows the value of the switch at the time of
+// the call, for the same Go type, in both orders; each directory is found
+// again under its own setting.
+func VH_C18_switch() {
+	first := vChoice("first_lower", 2) == 1
+	names := map[bool]string{false: "sod.vObj", true: "sod.v_obj"}
+	defer func() { LowercaseNames = false }()
+	var roots [2]string
+	var ids [2]string
+	for k := 0; k < 2; k++ {
+		lower := first != (k == 1)
+		LowercaseNames = lower
+		roots[k] = vTempDir()
+		db := Open(roots[k])
+		vAssert("C18.switch.create", db.Create(&vObj{}, DefaultSchema) == nil)
+		o := &vObj{A: vInt64("A"), S: "s"}
+		vAssert("C18.switch.insert", db.InsertOrUpdate(o) == nil)
+		vAssert("C18.switch.close", db.Close() == nil)
+		ids[k] = o.UUID()
+		top := vListDir(roots[k])
+		vAssert("C18.switch.dir_follows_switch", len(top) == 1 && top[0] == names[lower])
+	}
+	// each layout is read back under its own setting, whatever was used last
+	for k := 0; k < 2; k++ {
+		LowercaseNames = first != (k == 1)
+		db := Open(roots[k])
+		n, err := db.Count(&vObj{})
+		vAssert("C18.switch.reread_count", err == nil && n == 1)
+		_, err = db.GetByUUID(&vObj{}, ids[k])
+		vAssert("C18.switch.reread_get", err == nil)
+		vAssert("C18.switch.no_second_dir", len(vListDir(roots[k])) == 1)
+	}
+}
